@@ -242,6 +242,7 @@ func replayPoint(args []string) (any, error) {
 	sum := &Summary{}
 	cache := newScriptCache()
 	seenOps := map[string]bool{}
+	constructFails := 0
 	err := readNDJSON(args[0], func(raw json.RawMessage) error {
 		var row struct {
 			S  sstate `json:"s"`
@@ -284,7 +285,14 @@ func replayPoint(args []string) (any, error) {
 		sig := "point:" + text + "@" + stateSig(row.S)
 		pt := buildPoint(row.S)
 		if pre := diffPoint(pt, row.S, keys); len(pre) > 0 {
-			return fmt.Errorf("harness cannot construct spec state %s: %v", stateSig(row.S), pre)
+			// InitPt (and Set for a tag without value) are the code under test as well: a freshly initialised point that does not hold
+			// exactly the tags and fields it was given - e.g. because recycled index entries are shared - is a disagreement
+			constructFails++
+			sum.miss("point:init:"+stateSig(row.S), map[string]any{"note": "a point initialised from these tags and fields does not hold them", "bad": pre})
+			if constructFails > 50 {
+				return nil
+			}
+			return nil
 		}
 		sc, err := cache.load(text)
 		if err != nil {
